@@ -121,6 +121,11 @@ func vfC03DrawLists(t *rapid.T, label string) (l *vfC03Lists) {
 		switch r.Kind {
 		case "exact":
 			text = d
+			if rapid.IntRange(0, 3).Draw(t, fmt.Sprintf("%s_h%d_fqdn", label, i)) == 0 {
+				// the same name, spelled fully qualified
+				text += "."
+				vfC03.Class("hosts:exact_name_with_final_dot")
+			}
 		case "domain":
 			text = "||" + d + "^"
 		case "wildcard":
